@@ -998,8 +998,9 @@ def scenario_from_trace(steps, capv, handler):
             out.append({'do': 'release', 'outcome': 'ok' if st['out'] == 'ok' else ('panic' if st['out'] == 'panic' else 'err:Other')})
             pending_kind = (len(out) - 1, st.get('kind_term')) if st['out'] == 'err' else None
             pending_ok = len(out) - 1 if st['out'] == 'ok' else None
-            if st['out'] == 'panic':
-                unwind_held = [st['thread'], len(out) - 1, False]
+            # whatever the producers do before this worker's next operation happens while it is still inside the sink
+            # (a panic is held in mid-unwind, a normal return just before returning)
+            unwind_held = [st['thread'], len(out) - 1, False]
             conds = []
         if st['kind'] == 'branch' and pending_ok is not None and st.get('cond') is not None and 'wrapped_ret' in st['cond'].sexpr():
             # the code looks at the count the wrapped sink returned: realise a value that takes this branch
